@@ -213,6 +213,22 @@ def isBinary : Op → Option Nat
   | .cmp j => some j
   | _ => none
 
+/-- the documented precondition of an operation in the state `s` (positions valid, no more than the
+    capacity asked for, the objects named exist): what the caller owes, for a type that has the member -/
+def validPre (s : Sys) (k : Nat) (op : Op) : Bool :=
+  k < s.objs.length &&
+  match op with
+  | .copyCtor j => j < s.objs.length && j != k
+  | .moveCtor j => j < s.objs.length && j != k
+  | .copyAssign j => j < s.objs.length
+  | .moveAssign j => j < s.objs.length
+  | .swap j => j < s.objs.length
+  | .cmp j => j < s.objs.length
+  | op => match s.objs[k]? with
+    | some d => valid1 s.cap op d
+    | none => false
+
+/-- `validPre`, and the type has the member at all (`supports`) -/
 def valid (s : Sys) (k : Nat) (op : Op) : Bool :=
   supports s.ty op && k < s.objs.length &&
   match op with
@@ -234,12 +250,17 @@ def run (s : Sys) : List (Nat × Op) → Except Err (Sys × List Out)
     let r2 ← run r.1 rest
     .ok (r2.1, r.2 :: r2.2)
 
-/-- every operation of the history meets its precondition in the state it is applied to -/
+/-- every operation of the history meets its precondition in the *model* state it is applied to.
+    (Nothing is asked of the operations behind a failing step: that no step fails is a conclusion of
+    `history_refines_modelstate`, not part of this hypothesis.)  This notion of validity looks at the
+    model's objects and therefore also admits histories that go on using a moved-from object with the
+    contents etl happens to leave in it; the property's own notion — validity judged on what the
+    standard specifies — is `Spec.validHist` in Spec.lean. -/
 def validRun (s : Sys) : List (Nat × Op) → Bool
   | [] => true
   | (k, op) :: rest =>
     valid s k op && match step s k op with
       | .ok r => validRun r.1 rest
-      | .error _ => false
+      | .error _ => true
 
 end Tetl.C01
